@@ -652,3 +652,7 @@ _bind("normal_identifier", [(r"\bidentifier_str\b", "${ID}"), (r"seq!\[c\]", "se
                             (r"push\\\(c\\\)", r"push\\(${CUR}\\)")], {"ID": _ID, "CUR": _CUR})
 _bind("quoted_identifier", [(r"\bidentifier_str\b", "${ID}")], {"ID": _ID})
 _bind("string", [(r"\bstring_literal\b", "${LIT}")], {"LIT": (r"let mut (\w+) = String::new\(\);", "string_literal")})
+
+for _it in UNIT["items"]:
+    if _it.get("kind") == "auto_pure_fns":
+        _it["spec_names"] = {"is_identifier_initial": "is_initial"}
